@@ -110,6 +110,29 @@ def main():
                     break
             if len(fails) >= 3:
                 break
+        # (b) the server's working directory is NOT the root: relative spellings must be judged as they are opened
+        workdir = os.path.join(base, "workdir")
+        os.makedirs(os.path.join(workdir, "sub"))
+        open(os.path.join(workdir, "wd_secret.sql"), "w").write("select 'MARK_wd_secret' from t")
+        open(os.path.join(workdir, "sub", "hidden_entry.sql"), "w").write("select 1")
+        outside_marks.append("MARK_wd_secret")
+        os.chdir(workdir)
+        extra = []
+        for form in ("wd_secret.sql", "./wd_secret.sql", "sub/../wd_secret.sql"):
+            extra += [("POST", "/script", {"f": form}), ("POST", "/lineage", {"f": form}), ("POST", "/directory", {"f": form})]
+        extra += [("POST", "/directory", {"d": "."}), ("POST", "/directory", {"d": "sub"})]
+        # (c) percent-encoded spellings of '.' and '/' in a GET path (one level of encoding reaches the app object)
+        for enc in ("/%2e%2e/pkg_secret.py", "/.%2e/pkg_secret.py", "/%2e./pkg_secret.py", "/%2e%2e%2fpkg_secret.py", "/..%2fpkg_secret.py", "/%2E%2E/pkg_secret.py"):
+            extra.append(("GET", enc, None))
+        for method, route, body in extra if len(fails) < 3 else []:
+            evals += 1
+            status, out = request(method, route, body)
+            text = out.decode("utf-8", "replace")
+            leaked = [m for m in outside_marks if m in text]
+            listed = "hidden_entry" in text or "wd_secret" in text and route == "/directory"
+            if leaked or listed:
+                clause = "ensures.get_touches_only_the_static_folder" if method == "GET" else "ensures.post_touches_only_the_sql_root"
+                fails.append({"clause": clause, "method": method, "route": route, "body": body, "status": status, "leaked": leaked, "cwd": "a directory outside the root"})
         os.chdir(old_cwd)
         drawing.os.path.dirname = real_dirname
     finally:
